@@ -87,27 +87,47 @@ theorem not_last_lt {q : List Grp} (hnd : (q.map (·.node)).Nodup) {j : Nat} {G 
     rw [h] at hk'
     exact hne (by rw [Option.some.inj hk'])
 
-/-- the head mode of a group with a head is X or SIX -/
-theorem LockInv.hmode_of_head {ℓ : Nat} {q : List Grp} (hL : LockInv W P s ℓ q)
-    (hwf : ∀ a ∈ s.agents, a.loc.headMode ≠ some .S) {j : Nat} {G : Grp} {h : Nat}
-    (hj : q[j]? = some G) (hh : G.head = some h) : hmode s G = some .X ∨ hmode s G = some .SIX := by
-  obtain ⟨a, ha, _, _, ha3, _⟩ := hL.heads j G h hj hh
-  have hne := hwf a (List.mem_of_getElem? ha)
-  have : hmode s G = a.loc.headMode := by
-    unfold hmode headLoc; simp [hh, ha]
-  rw [this]
-  cases hm : a.loc.headMode with
-  | none => rw [hm] at ha3; simp at ha3
-  | some m => cases m <;> simp_all
+theorem hmode_eq_of_head {G : Grp} {h : Nat} {a : Agent} (hh : G.head = some h) (ha : s.agents[h]? = some a) :
+    hmode s G = a.loc.headMode := by
+  unfold hmode headLoc; simp [hh, ha]
 
-theorem LockInv.head_none_of_flags {ℓ : Nat} {q : List Grp} (hL : LockInv W P s ℓ q)
-    (hwf : ∀ a ∈ s.agents, a.loc.headMode ≠ some .S) {j : Nat} {G : Grp}
-    (hj : q[j]? = some G) (hx : (hmode s G == some .X) = false) (hs : (hmode s G == some .SIX) = false) :
-    G.head = none := by
+theorem hmode_no_head {G : Grp} (hh : G.head = none) : hmode s G = none := by
+  unfold hmode headLoc; simp [hh]
+
+theorem hmode_no_agent {G : Grp} {h : Nat} (hh : G.head = some h) (ha : s.agents[h]? = none) : hmode s G = none := by
+  unfold hmode headLoc; simp [hh, ha]
+
+/-- a live head contributes X or SIX -/
+theorem hmode_cases (hwf : ∀ a ∈ s.agents, a.loc.headMode ≠ some .S) (G : Grp) :
+    hmode s G = none ∨ hmode s G = some .X ∨ hmode s G = some .SIX := by
   cases hh : G.head with
-  | none => rfl
+  | none => left; exact hmode_no_head hh
   | some h =>
-    rcases hL.hmode_of_head hwf hj hh with h1 | h1 <;> simp [h1] at hx hs
+    cases ha : s.agents[h]? with
+    | none => left; exact hmode_no_agent hh ha
+    | some a =>
+      have hne := hwf a (List.mem_of_getElem? ha)
+      rw [hmode_eq_of_head hh ha]
+      cases hm : a.loc.headMode with
+      | none => left; rfl
+      | some m => cases m <;> simp_all
+
+theorem hmode_none_of_flags (hwf : ∀ a ∈ s.agents, a.loc.headMode ≠ some .S) {G : Grp}
+    (hx : (hmode s G == some .X) = false) (hs : (hmode s G == some .SIX) = false) : hmode s G = none := by
+  rcases hmode_cases hwf G with h | h | h
+  · exact h
+  · simp [h] at hx
+  · simp [h] at hs
+
+/-- the live head of a group -/
+theorem live_head {G : Grp} (h : (hmode s G).isSome) :
+    ∃ i a, G.head = some i ∧ s.agents[i]? = some a ∧ a.loc.headMode = hmode s G := by
+  cases hh : G.head with
+  | none => rw [hmode_no_head hh] at h; simp at h
+  | some i =>
+    cases ha : s.agents[i]? with
+    | none => rw [hmode_no_agent hh ha] at h; simp at h
+    | some a => exact ⟨i, a, rfl, ha, (hmode_eq_of_head hh ha).symm⟩
 
 /-- reading the lock word: its pointer is the last group's node -/
 theorem LockInv.lock_ptr (hW : WordSpecs P.C pb cb W) (hI : Inv W P pb cb s Q) {ℓ : Nat} (hℓ : ℓ < s.locks.length)
